@@ -101,7 +101,9 @@ pub fn gen_pool(r: &mut Rng, stable: bool) -> PoolInfo {
             assets.push(coin(a, denoms[i].clone()));
         }
     }
-    let amp = match r.below(8) { 0 => 1, 1 => 10, 2 => 85, 3 => 100, 4 => 1000, 5 => 1_000_000, 6 => r.range(1, 1_000_000), _ => r.range(1, 500) };
+    // (pool creation accepts any non-zero u64 amplification: now and then far above Curve's customary 10^6)
+    let amp = match r.below(9) { 0 => 1, 1 => 10, 2 => 85, 3 => 100, 4 => 1000, 5 => 1_000_000, 6 => r.range(1, 1_000_000),
+        7 => [10_000_000u64, 1_000_000_000, 1_000_000_000_000][r.below(3) as usize] + r.below(1000), _ => r.range(1, 500) };
     PoolInfo {
         pool_identifier: "p.1".to_string(),
         asset_denoms: denoms,
